@@ -36,22 +36,70 @@ _FP = {"write_at": "c14_write_at", "get_size": "c14_get_size", "truncate": "c14_
        "block_processor_destroy:destroy": "w17_pool_destroy",
        "destroy": "c14_obj_destroy"}
 
-_OPS = [(0, "begin_file"), (1, "append"), (2, "end_file"), (3, "submit_block"), (4, "enqueue"),
-        (5, "get_new_block"), (6, "pcb"), (7, "pcf"), (8, "dequeue"), (9, "sync"), (10, "finish")]
+_OPS = [(0, "begin_file"), (2, "end_file"), (3, "submit_block"), (4, "enqueue"),
+        (5, "get_new_block"), (6, "pcb"), (7, "pcf"), (9, "sync"), (10, "finish")]
 # W17_RB=1 (fragment blocks are read back: enqueue_block keeps in-flight
 # copies) for the operations that can enqueue a fragment block / free a copy
-_RB_OPS = (3, 4, 6, 7, 8, 10)
+_RB_OPS = (3, 4, 6, 7, 10)
+
+# shape of the start state: (current block, fragment block, free list length,
+# I/O queue length, blocks inside the pool); quick tier: the empty shape and
+# the one with every place occupied once
+_QUICK = [(1, 1, 1, 1, 1), (0, 0, 0, 0, 0)]
+# dequeue_block with every place occupied: 4-5 minutes under load -> thorough
+_QUICK_DEQ = [(0, 0, 0, 0, 0)]
+# append is the expensive one (6 minutes per shape with a current block on a
+# loaded machine, 30 s without): those shapes are in the thorough tier
+_QUICK_APP = [(0, 0, 0, 0, 0)]
+# thorough tier: three more shapes (fullest; two queued blocks and no free
+# list; fragment block, no current block). Enumerating all 108 shapes within
+# the bounds is possible (W17_* are free parameters) but costs hours.
+_THOROUGH = [(1, 1, 2, 1, 2), (1, 0, 0, 2, 1), (0, 1, 1, 0, 2)]
+_ALL = [(1, 1, 1, 1, 1), (0, 0, 0, 0, 0), (1, 0, 0, 0, 0)] + _THOROUGH
+
+
+def _cases(ops, fixed=None):
+    out = []
+    for op, name in ops:
+        for rb in ((0, 1) if op in _RB_OPS or op == 8 else (0,)):
+            for sh in _ALL:
+                d = {"W17_RB": rb, "W17_CUR": sh[0], "W17_FB": sh[1], "W17_NFREE": sh[2],
+                     "W17_NIOQ": sh[3], "W17_NPOOL": sh[4]}
+                if fixed is None:
+                    d["OP"] = op
+                out.append(dict(id="%s_rb%d_s%d%d%d%d%d" % ((name, rb) + sh), defines=d,
+                                tier="quick" if sh in (_QUICK_DEQ if op == 8 else _QUICK_APP if op == 1 else _QUICK)
+                                else "thorough"))
+    return out
+
+
+_LABEL = "bounded(6 start shapes with free list <= 2, I/O queue <= 2, pool <= 2; append <= 1 block + 1, block = 4)"
+_COMMON = dict(file="w17_own.c", label=_LABEL, fp=_FP, unwind=14, timeout=900,
+               flags=["--memory-leak-check"],
+               # "flags & ~BLK_FLAG_INTERNAL", "flags & ~SQFS_BLK_USER_SETTABLE_FLAGS":
+               # int mask converted to unsigned, defined behaviour
+               nochecks=["--conversion-check"])
 
 HARNESSES = [
-    dict(name="w17_own", file="w17_own.c",
-         label="bounded(blocks <= 10, lists <= 2, pool <= 2, append <= 2 blocks + 1, block = 4)",
-         fp=_FP, defines={"BP_BS": 4, "INODE_AVAIL": 0}, unwind=12, timeout=900,
-         flags=["--memory-leak-check"],
-         # "flags & ~BLK_FLAG_INTERNAL", "flags & ~SQFS_BLK_USER_SETTABLE_FLAGS":
-         # int mask converted to unsigned, defined behaviour
-         nochecks=["--conversion-check"],
+    dict(_COMMON, name="w17_own", defines={"BP_BS": 4, "INODE_AVAIL": 0},
          must_have=["C13.bp.single_owner", "C13.bp.no_orphan", "C13.bp.destroy_safe"],
-         cases=[dict(id="%s_rb0" % n, defines={"OP": op, "W17_RB": 0}, tier="quick") for op, n in _OPS] +
-               [dict(id="%s_rb1" % n, defines={"OP": op, "W17_RB": 1}, tier="quick")
-                for op, n in _OPS if op in _RB_OPS]),
+         cases=_cases(_OPS)),
+    # append: its loop with the contracts of get_new_block / enqueue_block that
+    # cases get_new_block_* / enqueue_* establish on the real functions
+    dict(_COMMON, native=False, name="w17_own_app", defines={"BP_BS": 4, "INODE_AVAIL": 0, "OP": 1, "W17_DEQ_MOVES": 1},
+         pre_instrument_flags=["--replace-calls", "get_new_block:w17_gnb_contract",
+                               "--replace-calls", "enqueue_block:w17_enq_contract"],
+         must_have=["C13.bp.single_owner", "C13.bp.no_orphan", "C13.bp.destroy_safe"],
+         # <= BP_BS + 1 bytes: at most 4 passes through append's loop
+         unwindset=["sqfs_block_processor_append.0:5"], timeout=1800,
+         cases=_cases([(1, "append")], fixed=True)),
+    # dequeue_block itself: the real function, its two big callees replaced by
+    # the contracts that cases pcb / pcf establish (all real together: no result
+    # in 15 minutes)
+    dict(_COMMON, native=False, name="w17_own_deq", defines={"BP_BS": 4, "INODE_AVAIL": 0, "OP": 8},
+         pre_instrument_flags=["--replace-calls", "process_completed_block:w17_pcb_contract",
+                               "--replace-calls", "process_completed_fragment:w17_pcf_contract"],
+         must_have=["C13.bp.single_owner", "C13.bp.no_orphan", "C13.bp.destroy_safe",
+                    "C13.bp.dequeue_lowers_backlog"],
+         cases=_cases([(8, "dequeue")], fixed=True)),
 ]
